@@ -308,6 +308,8 @@ C05(z) ==
      \cup {Case([op |-> ty \o op, n |-> n], IF ty = "date_" THEN DateV(d) ELSE Dt(d, 1, 2, 0), DateV(d)) :
              ty \in {"date_", "dt_"}, d \in (IF First THEN ends ELSE {}), op \in ops,
              n \in {W(0), W(1), W(5), W(6), W(7), W(12), W(70555338), W(141110676), W(141110677), W(11759222), W(11759223),
+                    \* the whole range in months / years: from the first days of the range to the last ones and back
+                    W(141110651), W(141110652), W(141110653), W(11759220), W(11759221),
                     W(2147483647), TwoTo31, U32Max}}
 
 (***************************************************************************)
